@@ -141,12 +141,18 @@ func (m MemCache) allSetIds() []int {
 
 // Dump saves the current templates to hard disk
 func (m MemCache) Dump(cacheFile string) error {
+	for _, shard := range m {
+		shard.RLock()
+	}
 	b, err := json.Marshal(
 		memCacheDisk{
 			m,
 			shardNo,
 		},
 	)
+	for _, shard := range m {
+		shard.RUnlock()
+	}
 	if err != nil {
 		return err
 	}
